@@ -152,6 +152,23 @@ class C10(Prop):
                             continue
                         self._judge_set(acc, again.schedules, recs, zz, f"direct parse right after the same reply was parsed in {zone if zz == z2 else z2}")
                     clock.set_zone(zone)
+                # copies of what was parsed say the same as the originals
+                import copy
+                import pickle
+
+                if k % 2 == 0 and resp.schedules:
+                    for how, dup in (("copy.copy", copy.copy), ("copy.deepcopy", copy.deepcopy), ("pickle round trip", lambda o: pickle.loads(pickle.dumps(o)))):
+                        acc.ev()
+                        acc.count("copies_of_parsed_listings")
+                        try:
+                            dup_set = {dup(s_) for s_ in resp.schedules}
+                            whole = dup(resp)
+                        except Exception as exc:
+                            acc.count(f"listing_not_duplicable_by_{how.split()[0]}")
+                            continue
+                        if len({rc[0] for rc in recs}) == len(recs):
+                            self._judge_set(acc, dup_set, recs, zone, f"{how} of each parsed schedule")
+                            self._judge_set(acc, whole.schedules, recs, zone, f"{how} of the whole response")
                 # a caller clones one schedule with an extra day by editing the set it was handed: the other schedules of the same
                 # listing still carry their own records' days
                 listed = sorted(resp.schedules, key=lambda x_: int(x_.schedule_id))
